@@ -18,6 +18,8 @@ impl From<serde_json::Value> for JsonShape {
 impl From<&serde_json::Value> for JsonShape {
     fn from(value: &serde_json::Value) -> Self {
         #[cfg(feature = "verif_hooks")]
+        let _frame = crate::verif_hooks::enter(0);
+        #[cfg(feature = "verif_hooks")]
         crate::verif_hooks::bump(0);
         match value {
             serde_json::Value::Null => Self::Null,
